@@ -287,6 +287,17 @@ def boom_variants():
     yield FalsyBoom()  # (the converter the caller gave is the converter used, whatever its truth value)
 
 
+_ME = []
+
+
+def _mapping_entry():
+    if not _ME:
+        from ..subtypes import mapping_entry_class
+
+        _ME.append(mapping_entry_class())
+    return _ME[0]
+
+
 def catalogue():
     np = NameParts(first=["Jos\\'e", "é"], von=["de"], last=["Müller"], jr=["Jr"])
     e = Entry(
@@ -305,6 +316,7 @@ def catalogue():
         raw="@Article{Ké_y, ... é \\'e}",
     )
     e.parser_metadata["m"] = {"é": ["\\'e"]}
+    ME = _mapping_entry()
     return [
         e,
         String("sé", "str é \\'e", 20, "@string{sé = ...}"),
@@ -313,6 +325,9 @@ def catalogue():
         ImplicitComment("ic é \\'e", 23, "ic é"),
         ExplicitComment("ec é \\'e", 24, "@comment{ec é}"),
         ParsingFailedBlock(Exception("é"), 25, "@bad{é \\'e", Entry("x", "é", [Field("f", "é \\'e")])),
+        # a user's Entry subclass that is sized and iterable like a mapping of its fields - with fields and without (falsy)
+        ME("misc", "mé", [Field("t", "m é \\'e", 31), Field("n", 3, 32)], 30, "@misc{mé, ...}"),
+        ME("misc", "m0", [], 33, "@misc{m0}"),
     ]
 
 
